@@ -95,6 +95,10 @@ fn one(ctx: &mut Ctx, x: &[u8], m: &Msg, order: usize, shape: &str) {
     }
 }
 
+pub fn one_pub(ctx: &mut Ctx, x: &[u8], m: &Msg, order: usize) {
+    one(ctx, x, m, order, "fuzz");
+}
+
 pub fn run(ctx: &mut Ctx) {
     // 1. exhaustive sweep: all 65536 flag words x {no OPT, OPT with DO, OPT without DO, OPT with odd fields}
     //    on a fixed body that is legal for queries and responses alike (additional records only)
